@@ -574,3 +574,53 @@ def tls_twin(plain_bin, tls_bin, hooks):
                 w.close()
             trs.append(tr)
     return trs
+
+
+def cli_tls(tls_bin):
+    """-C/-K on the command line switch the listener to TLS although the file has no [tls] section"""
+    port = sut.free_port()
+    d = tempfile.mkdtemp(prefix="clitls-", dir=os.path.join(sut.BUILD_ROOT, "run"))
+    cfg = minimal_cfg(tls_bin, port)
+    cfg.pop("password")
+    cfgp = os.path.join(d, "c.toml")
+    with open(cfgp, "w") as f:
+        f.write(dump_toml(cfg))
+    cert = os.path.join(sut.REPO, "test_data", "cert.crt")
+    key = os.path.join(sut.REPO, "test_data", "cert_key.crt")
+    env = dict(os.environ, RUST_BACKTRACE="0")
+    p = subprocess.Popen([tls_bin, "-c", cfgp, "-C", cert, "-K", key], cwd=d, env=env, stdin=subprocess.DEVNULL,
+                         stdout=subprocess.PIPE, stderr=subprocess.STDOUT)
+    out = []
+    try:
+        up = wait_port("127.0.0.1", port, p, 8.0)
+        out.append(("-C/-K: server starts", up))
+        if up:
+            try:
+                c = wire.Client(port, tls=True, timeout=5.0)
+                burst = c.register("clitls", "clitls")
+                out.append(("-C/-K: TLS registration works", any(m.verb == "001" for m in burst)))
+                c.close()
+            except (wire.Closed, wire.Timeout, OSError) as ex:
+                out.append(("-C/-K: TLS registration works", False))
+            try:
+                c = wire.Client(port, tls=False, timeout=3.0)
+                c.send("NICK plain")
+                c.send("USER plain 0 * :p")
+                ok = False
+                try:
+                    lines = c.read_until(lambda m: m.verb == "001", 2.0)
+                    ok = True
+                except (wire.Closed, wire.Timeout):
+                    pass
+                out.append(("-C/-K: plain text is not served on the TLS port", not ok))
+                c.close()
+            except OSError:
+                out.append(("-C/-K: plain text is not served on the TLS port", True))
+    finally:
+        if p.poll() is None:
+            p.kill()
+        p.wait(timeout=10)
+        p.stdout.close()
+        import shutil
+        shutil.rmtree(d, ignore_errors=True)
+    return out
